@@ -466,12 +466,23 @@ def r_map_shape(e, R):
     # the two-argument iter idiom: `for chunk in iter(lambda: tuple(islice(it, chunksize)), ()): yield chunk` -- consecutive cuts of the one
     # iterator until the first empty one, each yielded unchanged
     fors = [n for n in func_nodes(cf) if isinstance(n, ast.For)]
+    def _callable_body(x):
+        """the expression a zero-argument callable returns: a lambda, or a nested function whose body is one return"""
+        if isinstance(x, ast.Lambda) and not x.args.args:
+            return x.body
+        if isinstance(x, ast.Name):
+            defs_ = [n for n in ast.walk(cf.node) if isinstance(n, ast.FunctionDef) and n is not cf.node and n.name == x.id]
+            if len(defs_) == 1 and not defs_[0].args.args:
+                b_ = [s_ for s_ in defs_[0].body if not (isinstance(s_, ast.Expr) and isinstance(s_.value, ast.Constant))]
+                if len(b_) == 1 and isinstance(b_[0], ast.Return):
+                    return b_[0].value
+        return None
     if not loops and len(fors) == 1 and isinstance(fors[0].iter, ast.Call) and norm(fors[0].iter.func) == "iter" and len(fors[0].iter.args) == 2 \
-            and isinstance(fors[0].iter.args[0], ast.Lambda) and isinstance(fors[0].iter.args[1], ast.Tuple) and not fors[0].iter.args[1].elts:
-        lb = fors[0].iter.args[0].body
+            and _callable_body(fors[0].iter.args[0]) is not None and isinstance(fors[0].iter.args[1], ast.Tuple) and not fors[0].iter.args[1].elts:
+        lb = _callable_body(fors[0].iter.args[0])
         isl_ = lb.args[0] if isinstance(lb, ast.Call) and norm(lb.func) == "tuple" and len(lb.args) == 1 else None
         okcut = isinstance(isl_, ast.Call) and norm(isl_.func).endswith("islice") and len(isl_.args) == 2 and isinstance(isl_.args[0], ast.Name) and isl_.args[0].id == itv \
-            and isinstance(isl_.args[1], ast.Name) and isl_.args[1].id == ksz and not fors[0].iter.args[0].args.args
+            and isinstance(isl_.args[1], ast.Name) and isl_.args[1].id == ksz
         oky = isinstance(fors[0].target, ast.Name) and len(fors[0].body) == 1 and isinstance(fors[0].body[0], ast.Expr) and isinstance(fors[0].body[0].value, ast.Yield) \
             and isinstance(fors[0].body[0].value.value, ast.Name) and fors[0].body[0].value.value.id == fors[0].target.id and not fors[0].orelse
         if not (okcut and oky) or any(zips[0] is x for x in ast.walk(fors[0])):
